@@ -468,8 +468,15 @@ def leg_rich(ns, res, spec):
         bnames = None if names is None else ['bkey', 'bvals', 'bother']
         qtext = RICH_QUERIES[(n + spec['i']) % len(RICH_QUERIES)] if n % 7 else rng.choice(RICH_QUERIES)
         use_b = ' join ' in qtext
+        tuple_rows = n % 4 == 3
+        if tuple_rows:
+            # rows as they come from cursor.fetchall() / zip(): immutable tuples (possibly holding mutable cells); they must stay the same objects
+            A[:] = [tuple(r) if rng.random() < 0.8 else r for r in A]
+            B[:] = [tuple(r) if rng.random() < 0.8 else r for r in B]
+            res.count('rich_cases_with_tuple_rows')
         snapA, snapB = copy.deepcopy(A), copy.deepcopy(B)
         reprA, reprB = repr(A), repr(B)
+        idsA, idsB = [id(r) for r in A], [id(r) for r in B]
         case = {'leg': 'rich', 'query_text': qtext, 'A': snapA, 'B': snapB if use_b else None, 'a_names': names, 'b_names': bnames if use_b else None}
         res.nontrivial(qtext, reprA, reprB)
 
@@ -478,10 +485,12 @@ def leg_rich(ns, res, spec):
             res.count('rich_runs')
             res.count('rich_runs:' + front)
             res.count('rich_runs_failing' if err else 'rich_runs_succeeding')
-            if repr(A) != reprA or A != snapA or repr(B) != reprB or B != snapB:
+            if repr(A) != reprA or A != snapA or repr(B) != reprB or B != snapB or [id(r) for r in A] != idsA or [id(r) for r in B] != idsB:
                 res.violation('py:sources-modified:rich-cells:%s' % front, '[py/%s] %s (error %s) changed its sources: A %s -> %r ; B %s -> %r' % (front, qtext, err, reprA, A, reprB, B), dict(case, front=front))
                 A[:] = copy.deepcopy(snapA)
                 B[:] = copy.deepcopy(snapB)
+                idsA[:] = [id(r) for r in A]
+                idsB[:] = [id(r) for r in B]
 
         # (1) query_table
         err = None
@@ -503,7 +512,7 @@ def leg_rich(ns, res, spec):
         # (3) probes with the mutating sink
         o = boundary.run_py(ns, qtext, A, B if use_b else None, names, bnames if use_b else None, mutating_sink=True)
         check('query+mutating-sink', o.error)
-        if o.aliased:
+        if o.aliased and not tuple_rows:      # a tuple row handed through unchanged cannot be modified through the alias
             res.violation('py:output-aliases-input:rich-cells', '[py] output rows alias input rows %r for %s' % (o.aliased[:5], qtext), dict(case, front='probe'))
         # (4) pandas: object columns hold the very same list objects
         if n % 3 == 0 and names is not None:
@@ -542,7 +551,7 @@ def run_shard(spec, res):
 def summarize(tier, seed, m):
     return {
         'rule': 'the query generators of C01-C05 (every query shape) plus deliberately failing variants (syntax error, parsing error, runtime error, unknown join table), each executed (1) through rbql.query with probes and snapshots, (2) through the icontract-armed query_table, (3) with the CSV writer attached to list input, (4) on the JS engine with array snapshots; list tables with numbers, None and mutable list-valued cells under %d query texts (stars, UNNEST, every aggregate, list arithmetic and methods, UPDATE, joins) through query_table, the CSV writer as sink, a mutating probe sink and pandas object columns, compared with fully deep snapshots; pandas dataframes with deep copies; a file-backed sqlite database with recording connection, authorizer log, total_changes and file hash under %d hostile table identifiers (in the query text, as input table, and passed directly to SqliteRecordIterator); query_csv with file fingerprints and an audit-hook log of every open(); the CLI under strace. distinct_nontrivial = distinct executed (query, source) cases.' % (len(RICH_QUERIES), len(HOSTILE_IDS)),
-        'required': ['js_rich_csv_sink_runs_succeeding', 'js_rich_table_runs', 'rich_runs_failing', 'rich_runs_succeeding', 'rich_runs:csv-writer-quoted', 'rich_runs:query+mutating-sink', 'rich_runs:pandas', 'list_runs_failing', 'list_runs_succeeding', 'contract_evaluations', 'csv_writer_on_list_runs', 'column_name_list_checks', 'pandas_runs_succeeding', 'pandas_runs_failing', 'sqlite_runs_hostile', 'sqlite_runs_with_open_transaction', 'sqlite_sql_statements_observed', 'sqlite_authorizer_events', 'sqlite_direct_constructor_runs', 'csv_runs_succeeding', 'csv_runs_failing', 'csv_open_events_observed', 'strace_cli_runs', 'strace_opens_of_sources_observed', 'js_cases'],
+        'required': ['rich_cases_with_tuple_rows', 'js_rich_csv_sink_runs_succeeding', 'js_rich_table_runs', 'rich_runs_failing', 'rich_runs_succeeding', 'rich_runs:csv-writer-quoted', 'rich_runs:query+mutating-sink', 'rich_runs:pandas', 'list_runs_failing', 'list_runs_succeeding', 'contract_evaluations', 'csv_writer_on_list_runs', 'column_name_list_checks', 'pandas_runs_succeeding', 'pandas_runs_failing', 'sqlite_runs_hostile', 'sqlite_runs_with_open_transaction', 'sqlite_sql_statements_observed', 'sqlite_authorizer_events', 'sqlite_direct_constructor_runs', 'csv_runs_succeeding', 'csv_runs_failing', 'csv_open_events_observed', 'strace_cli_runs', 'strace_opens_of_sources_observed', 'js_cases'],
         'assumptions': ['hostile identifiers are only required not to reach sqlite and not to change the database; the error class they produce is not demanded', 'sqlite3.connect itself opens the database file read-write; the file hash (not the open mode) decides for sqlite'],
     }
 
